@@ -5,7 +5,7 @@ from hypothesis import strategies as st
 from hypothesis.stateful import RuleBasedStateMachine, initialize, precondition, rule
 
 from penman.exceptions import GraphError
-from penman.graph import Graph
+from penman.graph import Graph, Triple
 
 from pv.gen.base import fy, pick
 from pv.harness import Enum, Hyp, Machine
@@ -28,6 +28,11 @@ def _colon(r):
     return r if r.startswith(':') else ':' + r
 
 
+def _fresh(x):
+    """an equal string that is a different object (CPython keeps 0/1-character strings as singletons)"""
+    return (x + ' ')[:-1] if isinstance(x, str) else x
+
+
 def check_queries(triples, top, settop):
     f = []
     ts = [tuple(t) for t in triples]
@@ -37,6 +42,11 @@ def check_queries(triples, top, settop):
     if g.triples != norm:
         f.append(('triples-normalised', '%s -> %r' % (lab, g.triples)))
         return f
+    # "an iterable of triples (Triple or 3-tuples)": the same graph from Triple objects and from a one-shot iterator
+    for how, g2 in (('Triple objects', Graph([Triple(*t) for t in ts], top=top)), ('iterator', Graph(iter(ts), top=top))):
+        if g2.triples != norm or g2 != g:
+            f.append(('triples-normalised:' + how.split()[0], '%s from %s -> %r' % (lab, how, g2.triples)))
+            return f
     vs = {s for s, _, _ in norm} | ({top} if top is not None else set())
     if g.variables() != vs:
         f.append(('variables', '%s -> %r, model %r' % (lab, g.variables(), vs)))
@@ -60,11 +70,13 @@ def check_queries(triples, top, settop):
     roles = sorted({t[1] for t in norm})
     tgts = sorted({t[2] for t in norm}, key=repr)
     for s in srcs + ['nope']:
+        s = _fresh(s)
         if [tuple(t) for t in g.edges(source=s)] != [t for t in edges if t[0] == s]:
             f.append(('edges-filter-source', '%s source=%r' % (lab, s)))
         if [tuple(t) for t in g.attributes(source=s)] != [t for t in attrs if t[0] == s]:
             f.append(('attributes-filter-source', '%s source=%r' % (lab, s)))
     for r in roles:
+        r = _fresh(r)
         if [tuple(t) for t in g.edges(role=r)] != [t for t in edges if t[1] == r]:
             f.append(('edges-filter-role', '%s role=%r' % (lab, r)))
         if [tuple(t) for t in g.attributes(role=r)] != [t for t in attrs if t[1] == r]:
@@ -72,12 +84,13 @@ def check_queries(triples, top, settop):
     for t_ in tgts:
         if t_ is None:
             continue
+        t_ = _fresh(t_)
         if [tuple(t) for t in g.edges(target=t_)] != [t for t in edges if t[2] == t_]:
             f.append(('edges-filter-target', '%s target=%r' % (lab, t_)))
         if [tuple(t) for t in g.attributes(target=t_)] != [t for t in attrs if t[2] == t_]:
             f.append(('attributes-filter-target', '%s target=%r' % (lab, t_)))
     if srcs and roles:
-        s, r = srcs[0], roles[-1]
+        s, r = _fresh(srcs[0]), _fresh(roles[-1])
         if [tuple(t) for t in g.edges(source=s, role=r)] != [t for t in edges if t[0] == s and t[1] == r]:
             f.append(('edges-filter-combined', '%s source=%r role=%r' % (lab, s, r)))
     # re-entrancies
@@ -189,8 +202,6 @@ def run_history(case):
             _agree(res, M, lab, f)
         elif k in ('ior', 'isub'):
             i, j = op[1] % n, op[2] % n
-            if i == j:
-                continue
             snap_j = graphm.snapshot(pool[j])
             before = pool[i]
             if k == 'ior':
@@ -201,7 +212,7 @@ def run_history(case):
                 models_[i] = _m_isub(models_[i], models_[j])
             if pool[i] is not before:
                 f.append(('inplace-returns-new-object', lab)); return f
-            if graphm.snapshot(pool[j]) != snap_j:
+            if i != j and graphm.snapshot(pool[j]) != snap_j:          # g -= g and g |= g are the same object on both sides
                 f.append(('setop-mutates-operand', lab)); return f
             _agree(pool[i], models_[i], lab, f)
         elif k == 'query':
@@ -270,7 +281,9 @@ def classes(case):
         if any(t[2] in {x[0] for x in ts} and 'instance' in t[1] for t in ts): out.append('variable-spelled-concept')
         if case['top'] is not None and case['top'] not in {t[0] for t in ts}: out.append('foreign-top')
         return out
-    return ['history'] + sorted({'op:' + op[0] for op in case['ops']})
+    out = ['history'] + sorted({'op:' + op[0] for op in case['ops']})
+    if any(op[0] in ('ior', 'isub') and op[1] % 3 == op[2] % 3 for op in case['ops']): out.append('in-place-with-itself')
+    return out
 
 
 SRC = ['a', 'b']
@@ -327,8 +340,8 @@ BIG_POOL = POOL_TRIPLES + [['n%d' % i, ':instance', 'c%d' % (i % 3)] for i in ra
 
 @st.composite
 def _random_q(draw):
-    vs = ['a', 'b', 'c', 'd']
-    roles = [':instance', 'instance', ':r', 'r', ':r-of', ':s', ':', '']
+    vs = ['a', 'b', 'c', 'd'] if draw(st.booleans()) else ['a', 'x1', 'n10', 'e2']
+    roles = [':instance', 'instance', ':r', 'r', ':r-of', ':s', ':', '', 'ARG0', ':ARG0']
     tg = vs + ['x', 'y', None, 0, 1.5, '"s"']
     n = draw(st.integers(0, 9))
     out = []
@@ -337,7 +350,7 @@ def _random_q(draw):
             out.append(list(pick(draw, out)))
         else:
             out.append([pick(draw, vs), pick(draw, roles), pick(draw, tg)])
-    return {'k': 'q', 'triples': out, 'top': pick(draw, [None, None] + vs + ['z']), 'settop': pick(draw, [None] + vs + ['z', 'x'])}
+    return {'k': 'q', 'triples': out, 'top': pick(draw, [None, None] + vs + ['z', '']), 'settop': pick(draw, [None] + vs + ['z', 'x', ''])}
 
 
 @st.composite
